@@ -25,6 +25,8 @@ PROPS = {
                   'C02_only_eq_defined', 'C02_equivalence'],
         streams=[stream('peq', 'items:PartialEq,Eq', force=['PartialEq'], kinds=('struct', 'enum'))],
         k2=['eq'], k2_n=(80, 800),
+        k2_also=[('generics', 'PartialEq', (40, 300))],
+        direct=[('rejections', (1500, 15000), dict(pool=['PartialEq', 'Eq'] + ['Clone', 'Debug'], must=['PartialEq'], key='c02r'))],
         level_text='Theorems (closed under the global context) that the emitted `eq` of every struct / enum computes field-wise equality over the non-ignored fields, for all type definitions, attribute assignments, values and field-type behaviours; the model is tied to /repo by K1 (token equality of the PartialEq/Eq impls on generated inputs) and the real compiled code is compared with an independent oracle on enumerated value pairs (K2).',
         level_note='Trusted: Coq kernel; the hand-written model (tied by K1 on sampled inputs, not proved equal to the Rust source); Sem/Interp.v as the meaning of the emitted Rust subset; rustc as oracle in K2.',
     ),
@@ -34,6 +36,8 @@ PROPS = {
         streams=[stream('ord', 'items:PartialOrd,Ord', force=['Ord'], kinds=('struct', 'enum')),
                  stream('pord', 'items:PartialOrd,Ord', force=['PartialOrd'], kinds=('struct', 'enum'))],
         k2=['ord'], k2_n=(100, 800),
+        k2_also=[('generics', 'PartialOrd', (40, 300))],
+        direct=[('rejections', (1500, 15000), dict(pool=['PartialOrd', 'Ord'] + ['Clone', 'Debug'], must=['PartialOrd'], key='c03r'))],
     ),
     'C04': dict(
         title='Enum variants order by declared discriminant, never by memory layout',
@@ -41,31 +45,39 @@ PROPS = {
         streams=[stream('ordenum', 'items:PartialOrd,Ord', force=['Ord'], kinds=('enum',), n=(1000, 20000)),
                  stream('pordenum', 'items:PartialOrd,Ord', force=['PartialOrd'], kinds=('enum',), n=(1000, 20000))],
         k2=['ordlayout'], k2_n=(100, 800),
+        direct=[('c04', (1, 1))],
     ),
     'C05': dict(
         title='Hash input is a function of the variant and non-ignored fields only',
         theorems=[],
         streams=[stream('hash', 'items:Hash', force=['Hash'], kinds=('struct', 'enum'))],
         k2=['hash'], k2_n=(100, 800),
+        k2_also=[('generics', 'Hash', (40, 300))],
+        direct=[('rejections', (1500, 15000), dict(pool=['Hash'] + ['Clone', 'Debug'], must=['Hash'], key='c05r'))],
     ),
     'C06': dict(
         title="Debug renders the effective shape exactly like core::fmt's builders",
         theorems=[],
         streams=[stream('debug', 'items:Debug', force=['Debug'], kinds=('struct', 'enum'))],
         k2=['debug'], k2_n=(160, 1500),
+        k2_also=[('generics', 'Debug', (40, 300))],
+        direct=[('rejections', (1500, 15000), dict(pool=['Debug'] + ['Clone', 'Debug'], must=['Debug'], key='c06r'))],
     ),
     'C07': dict(
         title='Clone and clone_from reproduce the source value field by field',
         theorems=[],
         streams=[stream('clone', 'items:Clone,Copy', force=['Clone'], kinds=('struct', 'enum', 'union'))],
         k2=['clone'], k2_n=(80, 800),
-        direct=('c07', (1500, 15000)),
+        k2_also=[('generics', 'Clone', (40, 300))],
+        direct=[('c07', (1500, 15000)), ('rejections', (1500, 15000), dict(pool=['Clone', 'Copy', 'Debug'], must=['Clone'], key='c07r'))],
     ),
     'C08': dict(
         title='Default builds exactly the designated value',
         theorems=[],
         streams=[stream('default', 'items:Default,inherent', force=['Default'], kinds=('struct', 'enum', 'union'))],
         k2=['default', 'union'], k2_ops=['default', 'new', 'union_default', 'compile', 'crash'], k2_n=(200, 2000),
+        k2_also=[('generics', 'Default', (40, 300))],
+        direct=[('rejections', (1500, 15000), dict(pool=['Default'] + ['Clone', 'Debug'], must=['Default'], key='c08r'))],
     ),
     'C20': dict(
         title='Union impls are byte-wise and only generated behind an explicit unsafe',
@@ -80,12 +92,16 @@ PROPS = {
         streams=[stream('deref', 'items:Deref,DerefMut', force=['Deref'], kinds=('struct', 'enum')),
                  stream('derefmut', 'items:Deref,DerefMut', force=['Deref', 'DerefMut'], kinds=('struct', 'enum'), n=(800, 15000))],
         k2=['deref'], k2_n=(150, 1200),
+        k2_also=[('generics', 'Deref', (40, 300))],
+        direct=[('rejections', (1500, 15000), dict(pool=['Deref', 'DerefMut'] + ['Clone', 'Debug'], must=['Deref'], key='c09r'))],
     ),
     'C10': dict(
         title='Into returns the designated field for every requested target type',
         theorems=[],
         streams=[stream('into', 'items:Into', force=['Into'], kinds=('struct', 'enum'))],
         k2=['into'], k2_n=(80, 800),
+        k2_also=[('generics', 'Into', (40, 300)), ('bounds', 'Into', (40, 300))],
+        direct=[('rejections', (1500, 15000), dict(pool=['Into'] + ['Clone', 'Debug'], must=['Into'], key='c10r'))],
     ),
     'C01': dict(
         title='Every accepted derive request expands to code that compiles',
@@ -155,6 +171,15 @@ PROPS = {
 # when a theorem is added).  A theorem that disappears, fails to check or depends on an axiom fails the check.
 _TH = json.load(open(os.path.join(os.path.dirname(os.path.abspath(__file__)), 'theorems.json')))
 _TM = json.load(open(os.path.join(os.path.dirname(os.path.abspath(__file__)), 'theorem_modules.json')))
+def directs(P):
+    """the direct tests of a property as a list of (function name, (quick n, thorough n), kwargs)"""
+    d = P.get('direct')
+    if not d:
+        return []
+    if isinstance(d, tuple):
+        d = [d]
+    return [(x[0], x[1], x[2] if len(x) > 2 else {}) for x in d]
+
 for _pid, _P in PROPS.items():
     _P['theorems'] = _TH.get(_pid, _P.get('theorems', []))
     _P['modules'] = ['Educe.Properties.%s' % m for m in _TM.get(_pid, [_pid])]
@@ -173,7 +198,7 @@ def default_level_text(pid, P):
     if P.get('k2'):
         parts.append('The real, rustc-compiled output of the real proc macro is compared with oracles generated independently from the request on enumerated values (K2 suites: %s); a mismatch is the concrete failing input.' % ', '.join(P['k2']))
     if P.get('direct'):
-        parts.append('The property is additionally tested directly on real in-process expansions (%s): that is the search for a failing input.' % P['direct'][0])
+        parts.append('The property is additionally tested directly on real in-process expansions (%s): that is the search for a failing input.' % ', '.join(x[0] for x in directs(P)))
     return ' '.join(parts)
 
 def default_level_note(pid, P):
@@ -291,21 +316,24 @@ def run_check(pid, tier, seed):
             import k2
             kn = P.get('k2_n')
             k2_failures, k2_stats = k2.run(pid, P['k2'], tier, seed, n=(kn[0 if tier == 'quick' else 1] if kn else None),
-                                           hostile=P.get('k2_hostile', False), only_ops=P.get('k2_ops'))
+                                           hostile=P.get('k2_hostile', False), only_ops=P.get('k2_ops'), also=P.get('k2_also'))
         except ImportError:
             k2_stats = dict(skipped='k2 not built yet')
     for f in k2_failures:
         report.fail(f['key'], f['what'], f, found_input=True)
     direct_stats = {}
-    if P.get('direct'):
+    direct_failed = False
+    for name, sizes, kw in directs(P):
         import direct
-        name, sizes = P['direct']
-        dfails, kdiffs, direct_stats = getattr(direct, name)(seed, sizes[0 if tier == 'quick' else 1])
+        dfails, kdiffs, dstats = getattr(direct, name)(seed, sizes[0 if tier == 'quick' else 1], **kw)
         for f in dfails:
             report.fail(f['key'], f['what'], f, found_input=True)
             k2_failures.append(f)
+            if not [k for k in report.known if k['key'] == f['key']]:
+                direct_failed = True
         report.k1_diffs.extend(kdiffs)
-        evaluations += direct_stats.get('pairs', direct_stats.get('cases', 0)) or sum(v for v in direct_stats.values() if isinstance(v, int))
+        direct_stats[name] = dstats
+        evaluations += dstats.get('pairs', dstats.get('cases', 0)) or sum(v for v in dstats.values() if isinstance(v, int))
     # a broken correspondence without a failing input is still a violation
     if report.k1_diffs and not [v for v in report.violations if v[3]]:
         d0 = report.k1_diffs[0]
@@ -314,7 +342,7 @@ def run_check(pid, tier, seed):
                     dict(correspondence='K1 ' + d0['stream'], cases=report.k1_diffs[:5]), found_input=False)
     rc = report.finish()
     n_obl = len(obl) + len(P['streams']) + (1 if P.get('direct') else 0)
-    n_ok = sum(1 for o in obl if o['ok']) + sum(1 for st in P['streams'] if not [d for d in report.k1_diffs if d['stream'] == st['name']]) + (1 if P.get('direct') and not [v for v in report.violations if str(v[0]).startswith(P['direct'][0])] else 0)
+    n_ok = sum(1 for o in obl if o['ok']) + sum(1 for st in P['streams'] if not [d for d in report.k1_diffs if d['stream'] == st['name']]) + (1 if P.get('direct') and not direct_failed else 0)
     cov = dict(obligations=max(1, n_obl), discharged=n_ok,
                checker_cmd='./build.sh (coq_makefile + make: full .vo build) ; coqc _build/obl_%s.v (Print Assumptions) ; tools/k1.py view=%s' % (pid, ','.join(st['view'] for st in P['streams'])),
                trusted_base=vlib.TRUSTED_BASE,
